@@ -335,6 +335,8 @@ def check_farfield(desc):
     # |k| |y|^2 / r of a far-away, short-wavelength grid would need radii at which k r eps already exceeds the tolerance.
     R0 = float(np.max(np.linalg.norm(V - cen[:, None], axis=0)))
     r1 = max(2e3 * R0, 1e3 * abs(k) * R0 * R0)
+    if fam == "maxwell":
+        r1 = max(r1, 3e3 / abs(k))  # the E and H potentials carry 1/(ikr) corrections: at small k the far zone starts at r >> 1/|k|
     if np.imag(k) != 0:
         r1 = min(r1, 250.0 / abs(np.imag(k)))
     lim = []
@@ -346,7 +348,7 @@ def check_farfield(desc):
     e_lim = og.relerr(Fc, extr)
     # remainder after one Richardson step: squares of the amplitude term R0/r and of the phase term |k| R0^2 / r; plus the
     # rounding of the distances |c + r x - y| in the phase (|k| (|c| + r) eps)
-    tol_lim = 50 * ((R0 / r1) ** 2 + (abs(k) * R0 * R0 / r1) ** 2) + 1e-7 + 50 * abs(k) * (float(np.linalg.norm(cen)) + 2 * r1) * 2.3e-16
+    tol_lim = 50 * ((R0 / r1) ** 2 + (abs(k) * R0 * R0 / r1) ** 2 + (1.0 / (abs(k) * r1)) ** 2 * (fam == "maxwell")) + 1e-7 + 50 * abs(k) * (float(np.linalg.norm(cen)) + 2 * r1) * 2.3e-16
     if e_lim > tol_lim:
         _fail(f"farfield_limit/{fam}_{op}/{cls}", f"far field differs from lim r e^{{-ikr}} u(r x) by {e_lim:.2e} (tolerance {tol_lim:.1e}), k={k}")
     # translation law
